@@ -161,6 +161,12 @@ func compare[T int | int32 | int64 | int16 | int8 | uint | uint32 | uint64 | uin
 // decimalText is the text a number is compared by against a string: its
 // decimal text, without the exponent %v switches to for floats from 1e21 on
 // and - for whole floats - from 1e6 on (1000000, not 1e+06)
+// Text is the text by which a value is compared against a string, and by
+// which equal join keys are recognised: numbers by their decimal text
+func Text(a any) string {
+	return decimalText(a)
+}
+
 func decimalText(a any) string {
 	switch t := a.(type) {
 	case float64:
